@@ -142,6 +142,45 @@ def _prune(d, keep):
         shutil.rmtree(e, ignore_errors=True)
 
 
+def facts_for_derive_cases(repo=None):
+    """Facts of fixtures/derive_cases, a crate that path-depends on /repo/dds: the output of /repo's *current* derive macro for
+    a fixed set of declarations. Keyed by the repo tree hash and the fixture sources."""
+    repo = repo or REPO
+    fx = os.path.join(VERIF, "fixtures", "derive_cases")
+    extra = []
+    for dp, dn, fn in os.walk(fx):
+        dn[:] = sorted(x for x in dn if x != "target")
+        for f in sorted(fn):
+            if f == "Cargo.lock":
+                continue
+            p = os.path.join(dp, f)
+            extra.append(os.path.relpath(p, fx))
+            extra.append(file_hash(p))
+    h, _ = tree_hash(repo, extra=extra)
+    d = os.path.join(CACHE, "derive_cases_facts", h)
+    path = os.path.join(d, "derive_cases.facts.jsonl")
+    os.makedirs(os.path.join(CACHE, "derive_cases_facts"), exist_ok=True)
+    lock = open(os.path.join(CACHE, "derive_cases.lock"), "w")
+    fcntl.flock(lock, fcntl.LOCK_EX)
+    try:
+        if os.path.exists(path):
+            return path
+        # the crate resolves its dependencies with the repository's own lock file (offline)
+        shutil.copyfile(os.path.join(repo, "Cargo.lock"), os.path.join(fx, "Cargo.lock"))
+        tmp = d + ".tmp"
+        shutil.rmtree(tmp, ignore_errors=True)
+        rc, out, secs = run_extraction(fx, tmp, os.path.join(CACHE, "derive_cases_target"), ["derive_cases"], ["derive_cases"], None, h)
+        if rc != 0 or not os.path.exists(os.path.join(tmp, "derive_cases.facts.jsonl")):
+            raise InfraError("derive_cases does not build against the current /repo (a declaration of the documented attribute language is rejected, or the macro output does not compile):\n" + out[-3000:])
+        shutil.rmtree(d, ignore_errors=True)
+        os.rename(tmp, d)
+        _prune(os.path.join(CACHE, "derive_cases_facts"), keep=2)
+        return path
+    finally:
+        fcntl.flock(lock, fcntl.LOCK_UN)
+        lock.close()
+
+
 def facts_for_fixture():
     """Facts of fixtures/vp_fixture (built on demand, keyed by fixture sources + driver)."""
     fx = os.path.join(VERIF, "fixtures", "vp_fixture")
